@@ -93,6 +93,8 @@ def scaled(x): return x * 2.0 + SHIFT_IN_HELPER
 SHIFT_IN_HELPER = 1.0
 def jet_ok(j): return j.pt() > 20.0 and j.eta() < 3.0
 def lead_pt(js): return js.Select(lambda j: j.pt()).First()
+def trk_sums(j): return j.trks().Select(lambda t: j.trks().Select(lambda h: h.pt() + t.pt() * 100 + j.pt()))
+def trk_prod(j, w): return j.trks().Select(lambda t: j.trks().Select(lambda t_1: t_1.pt() * t.pt() + w))
 '''
 
 PRIMES = [2, 3, 5, 7, 11, 13, 17, 19, 23, 29, 31, 37, 41, 43, 47, 53, 59, 61, 67, 71, 73, 79, 83, 89, 97, 101, 103, 107, 109, 113, 127, 131, 137, 139, 149, 151, 157, 163, 167, 173, 179, 181, 191, 193, 197, 199, 211, 223, 227, 229]
@@ -149,6 +151,12 @@ SELECT = {
         ("deep", "{v}.jets().Select(lambda j: (j, {v}.met())).Select(lambda t: t[0].trks().Select(lambda k: t[0].trks().Select(lambda {v}: {v}.pt() + t[1] + k.pt())))", ANY),
         ("deep", "{v}.jets().Select(lambda j: {{'j': j, 'm': {v}.nvtx()}}).Select(lambda j: j.j.trks().Select(lambda t: j.j.trks().Select(lambda {v}: {v}.pt() * j.m)))", ANY),
         ("seqnum", "{v}.jets().Where(lambda j: j.ntrk() > 0).Select(lambda j: (j.trks(), {v}.met())).Select(lambda {v}: {v}[0].Select(lambda j: j.pt() + {v}[1]).Count())", ANY),
+        # the stage variable occurs ONLY inside a nested lambda of the packaged tuple; the next stage takes it apart under a lambda re-using its name
+        ("deep", "{v}.jets().Where(lambda j: j.ntrk() > 0).Select(lambda j: (j, j.trks().Select(lambda t: t.pt() + {v}.met()))).Select(lambda p: p[0].trks().Select(lambda {v}: {v}.pt() * p[1].First()))", ANY),
+        ("deep", "{v}.jets().Where(lambda j: j.ntrk() > 0).Select(lambda j: {{'j': j, 's': j.trks().Select(lambda t: t.pt() + {v}.nvtx())}}).Select(lambda j: j.j.trks().Select(lambda {v}: {v}.pt() * j.s.First()))", ANY),
+        # helpers with two levels of nested lambdas, called with a variable named like the innermost binder
+        ("deep", "{v}.jets().Select(lambda h: trk_sums(h))", CALLABLE), ("deep", "{v}.jets().Select(lambda t: trk_sums(t))", CALLABLE),
+        ("deep", "{v}.jets().Select(lambda t: trk_prod(t, {v}.met()))", CALLABLE), ("deep", "{v}.jets().Select(lambda t_1: trk_prod(t_1, t_1.pt()))", CALLABLE),
     ],
     "deep": [("num", "{v}.Count()", ANY), ("deep", "{v}", ANY)],
     "Jet": [
